@@ -141,6 +141,8 @@ theorem stepRegs_inRange {b : Builder} (h : ScopeOk b) (h0 : 0 < b.env.namespace
   | «attribute» pfx loc value sp =>
     simp only [Builder.stepRegs] at hr
     split at hr
+    · cases hr
+    split at hr
     · exact hpre _ _ r hr
     · split at hr
       · exact hpre _ _ r hr
@@ -148,7 +150,11 @@ theorem stepRegs_inRange {b : Builder} (h : ScopeOk b) (h0 : 0 < b.env.namespace
   | elementEnd ee sp =>
     cases ee with
     | «open» => exact hopen r hr
-    | close pfx loc => exact (elementNameRegs_below hst _ _ _ r hr).inRange (Nat.le_refl _)
+    | close pfx loc =>
+      simp only [Builder.stepRegs] at hr
+      split at hr
+      · cases hr
+      exact (elementNameRegs_below hst _ _ _ r hr).inRange (Nat.le_refl _)
     | empty => exact hopen r hr
   | pi target content sp =>
     simp only [Builder.stepRegs] at hr
